@@ -236,6 +236,11 @@ func main() {
 		seed  string
 		log   string
 		enum  bool
+		spin  string
+	}
+	watchdogS := "45"
+	if *tier == "thorough" {
+		watchdogS = "120"
 	}
 	var crashes []crash
 	sem := make(chan struct{}, *par)
@@ -248,32 +253,48 @@ func main() {
 			defer func() { <-sem }()
 			op := filepath.Join(outDir, fmt.Sprintf("w%05d.json", ji))
 			env := []string{"VERIF_PROP=" + prop, "VERIF_TIER=" + *tier, fmt.Sprintf("VERIF_SEED=%d", seed),
-				fmt.Sprintf("VERIF_FROM=%d", j.from), fmt.Sprintf("VERIF_TO=%d", j.to), "VERIF_OUT=" + op, "VERIF_REPLAY_DIR=" + replayDir}
+				fmt.Sprintf("VERIF_TO=%d", j.to), "VERIF_OUT=" + op, "VERIF_REPLAY_DIR=" + replayDir, "VERIF_WATCHDOG_S=" + watchdogS}
 			if j.enum {
 				env = append(env, "VERIF_ENUM=1")
 			}
-			o, err := run(verif, env, perWorkerTimeout, bin, "-test.run", "^TestWorker$", "-test.timeout", "0")
-			data, rerr := os.ReadFile(op)
-			mu.Lock()
-			defer mu.Unlock()
-			if rerr != nil {
-				// the worker died: which run was it executing?
-				intent, _ := os.ReadFile(op + ".intent")
-				f := strings.Fields(string(intent))
-				if len(f) == 2 && err != nil && !strings.Contains(err.Error(), "timeout") {
-					idx, _ := strconv.Atoi(f[0])
-					crashes = append(crashes, crash{index: idx, seed: f[1], log: tail(o, 6000), enum: j.enum})
-				} else {
+			from := j.from
+			for attempt := 0; ; attempt++ {
+				env2 := append(append([]string{}, env...), fmt.Sprintf("VERIF_FROM=%d", from))
+				os.Remove(op)
+				o, err := run(verif, env2, perWorkerTimeout, bin, "-test.run", "^TestWorker$", "-test.timeout", "0")
+				data, rerr := os.ReadFile(op)
+				mu.Lock()
+				if rerr != nil {
+					// the worker died: which run was it executing?
+					intent, _ := os.ReadFile(op + ".intent")
+					spin, _ := os.ReadFile(op + ".spin")
+					os.Remove(op + ".spin")
+					f := strings.Fields(string(intent))
+					if len(f) == 2 && err != nil && !strings.Contains(err.Error(), "timeout") {
+						idx, _ := strconv.Atoi(f[0])
+						crashes = append(crashes, crash{index: idx, seed: f[1], log: tail(o, 6000), enum: j.enum, spin: string(spin)})
+						mu.Unlock()
+						// carry on with the rest of this worker's range in a new process
+						if idx+1 < j.to && attempt < 8 {
+							from = idx + 1
+							continue
+						}
+						return
+					}
 					infraMsgs = append(infraMsgs, fmt.Sprintf("worker %d (%d..%d) produced no result: %v\n%s", ji, j.from, j.to, err, tail(o, 3000)))
+					mu.Unlock()
+					return
 				}
+				var wo workerOut
+				if json.Unmarshal(data, &wo) != nil {
+					infraMsgs = append(infraMsgs, fmt.Sprintf("worker %d wrote an unreadable result", ji))
+					mu.Unlock()
+					return
+				}
+				outs = append(outs, wo)
+				mu.Unlock()
 				return
 			}
-			var wo workerOut
-			if json.Unmarshal(data, &wo) != nil {
-				infraMsgs = append(infraMsgs, fmt.Sprintf("worker %d wrote an unreadable result", ji))
-				return
-			}
-			outs = append(outs, wo)
 		}(ji, j)
 	}
 	wg.Wait()
@@ -290,22 +311,36 @@ func main() {
 		if c.enum {
 			env = append(env, "VERIF_ENUM=1")
 		}
+		env = append(env, "VERIF_WATCHDOG_S="+watchdogS)
 		o, err := run(verif, env, perWorkerTimeout, bin, "-test.run", "^TestWorker$", "-test.timeout", "0")
 		if _, rerr := os.ReadFile(op); rerr == nil || err == nil {
 			infraMsgs = append(infraMsgs, fmt.Sprintf("worker crash at run %d did not reproduce in a fresh process:\n%s", c.index, c.log))
 			continue
 		}
 		where := crashSite(o)
+		kind := "crash"
+		if spin, serr := os.ReadFile(op + ".spin"); serr == nil && len(spin) > 0 {
+			kind = "spin"
+			where, _, _ = strings.Cut(string(spin), "\n")
+			o = string(spin)
+		} else if c.spin != "" {
+			infraMsgs = append(infraMsgs, fmt.Sprintf("spin at run %d did not reproduce in a fresh process", c.index))
+			continue
+		}
 		if where == "" {
 			infraMsgs = append(infraMsgs, fmt.Sprintf("worker crash at run %d has no frame in repository code:\n%s", c.index, tail(o, 4000)))
 			continue
 		}
 		rp := filepath.Join(replayDir, fmt.Sprintf("%s-%s-%d-%d-crash.json", prop, *tier, seed, c.index))
-		rf := map[string]interface{}{"property": prop, "kind": "crash", "base_seed": seed, "run_index": c.index, "tier": *tier, "enum": c.enum,
+		rf := map[string]interface{}{"property": prop, "kind": kind, "base_seed": seed, "run_index": c.index, "tier": *tier, "enum": c.enum,
 			"crash": tail(o, 8000), "replay_cmd": fmt.Sprintf("VERIF_SEED=%d bin/check %s %s -from %d", seed, prop, *tier, c.index)}
 		js, _ := json.MarshalIndent(rf, "", " ")
 		os.WriteFile(rp, js, 0o644)
-		found = append(found, verdict{class: "crash:" + where, msg: "the process crashed in " + where + ": " + firstLine(o), replay: rp})
+		if kind == "spin" {
+			found = append(found, verdict{class: "spin:" + where, msg: "a goroutine spins in " + where + " and never blocks (two stack samples 5 s apart, no kernel step for " + watchdogS + " s)", replay: rp})
+		} else {
+			found = append(found, verdict{class: "crash:" + where, msg: "the process crashed in " + where + ": " + firstLine(o), replay: rp})
+		}
 	}
 
 	// merge
@@ -346,7 +381,7 @@ func main() {
 	// confirm violations by strict replay in a fresh process
 	confirmed := found[:0]
 	for _, v := range found {
-		if strings.HasPrefix(v.class, "crash:") {
+		if strings.HasPrefix(v.class, "crash:") || strings.HasPrefix(v.class, "spin:") {
 			confirmed = append(confirmed, v)
 			continue
 		}
